@@ -15,32 +15,30 @@ PROPERTY = "C27"
 LEVEL = "model_checking"
 
 MOVING_TIMES = (0, 1, 3)
-# (coil byte, bit), (open byte, bit), (closed byte, bit), in-size, out-size
-LAYOUTS = {"A": ((0, 3), (1, 0), (1, 5), 2, 1),
-           "B": ((2, 7), (0, 6), (0, 0), 1, 3)}
+# per layout: bit numbers (byte * 8 + bit) of the coils in the output image and of the open and
+# closed switches in the input image, for valve 0, 1, 2; input size, output size in bytes
+LAYOUTS = {"A": ((3, 6, 9), (8, 2, 11), (13, 4, 15), 2, 2),
+           "B": ((23, 1, 12), (6, 3, 9), (0, 7, 13), 2, 3)}
 
 
 class Rig:
-    """a real Valve on a real SyncGroup; the bus is simulated by handing the outgoing frame back
-    with the working counters and the input bits filled in"""
+    """real Valve objects (one per entry of `valves`: dict(mt, safe, coil0, configure)) in one real
+    SyncGroup; the bus is simulated by handing the outgoing frame back with the working counters
+    and the input bits filled in"""
 
-    def __init__(self, mt, safe, layout="A", coil0=False, configure="instance"):
+    def __init__(self, valves, layout="A"):
         import ebpfcat.devices as D
         from ebpfcat.ebpfcat import EBPFTerminal, PacketDesc, SimpleEtherCat, SyncGroup
         from ebpfcat.ethercat import SyncManager
-        (cb, cbit), (ob, obit), (sb, sbit), insz, outsz = LAYOUTS[layout]
+        coils, opens, closeds, insz, outsz = LAYOUTS[layout]
 
         class DIO(EBPFTerminal):
-            coil = PacketDesc(SyncManager.OUT, cb, cbit)
-            open_sw = PacketDesc(SyncManager.IN, ob, obit)
-            closed_sw = PacketDesc(SyncManager.IN, sb, sbit)
+            pass
 
-        if configure == "subclass":
-            class Cls(D.Valve):
-                movingTime = mt
-                safeState = safe
-        else:
-            Cls = D.Valve
+        for k in range(len(valves)):
+            setattr(DIO, f"coil{k}", PacketDesc(SyncManager.OUT, coils[k] // 8, coils[k] % 8))
+            setattr(DIO, f"open{k}", PacketDesc(SyncManager.IN, opens[k] // 8, opens[k] % 8))
+            setattr(DIO, f"closed{k}", PacketDesc(SyncManager.IN, closeds[k] // 8, closeds[k] % 8))
         self.D = D
         self.now = 1000.0
         self.saved = D.monotonic
@@ -49,88 +47,149 @@ class Rig:
         term = DIO(ec)
         term.position = 3
         term.pdo_in_sz, term.pdo_out_sz = insz, outsz
-        v = Cls()
-        v.coil, v.openSwitch, v.closedSwitch = term.coil, term.open_sw, term.closed_sw
-        if configure != "subclass":
-            v.movingTime = mt
-            v.safeState = safe
-        sg = SyncGroup(ec, [v])
+        self.v = []
+        for k, cfg in enumerate(valves):
+            if cfg.get("configure", "instance") == "subclass":
+                Cls = type("ConfiguredValve", (D.Valve,),
+                           dict(movingTime=cfg["mt"], safeState=cfg["safe"]))
+                v = Cls()
+            else:
+                v = D.Valve()
+                v.movingTime = cfg["mt"]
+                v.safeState = cfg["safe"]
+            v.coil = getattr(term, f"coil{k}")
+            v.openSwitch = getattr(term, f"open{k}")
+            v.closedSwitch = getattr(term, f"closed{k}")
+            self.v.append(v)
+        sg = SyncGroup(ec, list(self.v))
         sg.allocate()
         sg.wkc_errors = 0
         sg.asm_packet = sg.packet.assemble(1000, ec.ethertype)
         sg.current_data = bytearray(sg.asm_packet)
-        self.v, self.sg = v, sg
-        self.inoff = sg.pdo_assign[term][SyncManager.IN]
-        self.outoff = sg.pdo_assign[term][SyncManager.OUT]
-        self.cpos, self.cmask = self.outoff + cb, 1 << cbit
-        self.opos, self.omask = self.inoff + ob, 1 << obit
-        self.spos, self.smask = self.inoff + sb, 1 << sbit
-        self.open = self.closed = False
-        if coil0:
-            sg.current_data[self.cpos] |= self.cmask
+        self.sg = sg
+        inoff = sg.pdo_assign[term][SyncManager.IN]
+        outoff = sg.pdo_assign[term][SyncManager.OUT]
+        self.cpos = [(outoff + b // 8, 1 << b % 8) for b in coils]
+        self.opos = [(inoff + b // 8, 1 << b % 8) for b in opens]
+        self.spos = [(inoff + b // 8, 1 << b % 8) for b in closeds]
+        self.open = [False] * len(valves)
+        self.closed = [False] * len(valves)
+        for k, cfg in enumerate(valves):
+            if cfg.get("coil0"):
+                pos, mask = self.cpos[k]
+                sg.current_data[pos] |= mask
 
     def close(self):
         self.D.monotonic = self.saved
 
-    def coil(self):
-        """the coil bit as it leaves for the terminal"""
-        return bool(self.sg.current_data[self.cpos] & self.cmask)
+    def coil(self, k):
+        """the coil bit of valve k as it leaves for the terminal"""
+        pos, mask = self.cpos[k]
+        return bool(self.sg.current_data[pos] & mask)
 
     def bus(self):
         """one bus round trip of the outgoing frame"""
         fr = bytearray(self.sg.current_data)
-        for pos, mask, val in ((self.opos, self.omask, self.open),
-                               (self.spos, self.smask, self.closed)):
-            if val:
-                fr[pos] |= mask
-            else:
-                fr[pos] &= ~mask & 0xff
+        for k in range(len(self.v)):
+            for (pos, mask), val in ((self.opos[k], self.open[k]), (self.spos[k], self.closed[k])):
+                if val:
+                    fr[pos] |= mask
+                else:
+                    fr[pos] &= ~mask & 0xff
         for pos, cnt in self.sg.packet.counters.items():
             fr[pos] = cnt & 0xff
             fr[pos + 1] = cnt >> 8
         return fr
 
 
-def drive(script, mt, safe, layout="A", coil0=False, configure="instance"):
-    rig = Rig(mt, safe, layout, coil0, configure)
+def drive_group(script, valves, layout="A"):
+    """replay a group history on real Valve objects in one real SyncGroup.  Steps carry the index
+    `i` of the valve they belong to (default 0); advance and update concern the whole group.
+    Returns one trace per valve: the projection of the history to that valve, starting at its own
+    reset - what an observer of this valve alone would record."""
+    rig = Rig(valves, layout)
     try:
-        v = rig.v
-        ev = []
-        hdr = None
+        n = len(valves)
+        ev = [[] for _ in range(n)]
+        hdr = [None] * n
         dead = False
         for op in script:
             k = op["op"]
+            i = op.get("i", 0)
             if k == "reset":
-                v.reset()
-                hdr = dict(coil0=rig.coil(), target0=bool(v.target), open0=False, closed0=False)
+                rig.v[i].reset()
+                hdr[i] = dict(coil0=rig.coil(i), target0=bool(rig.v[i].target),
+                              open0=rig.open[i], closed0=rig.closed[i])
             elif k == "target":
-                v.target = op["v"]
-                ev.append(dict(op))
+                rig.v[i].target = op["v"]
+                if hdr[i] is None:
+                    raise T.MachineryError("history must start with the reset of a valve")
+                ev[i].append(dict(op="target", v=op["v"]))
             elif k == "switches":
-                rig.open, rig.closed = op["o"], op["c"]
-                ev.append(dict(op))
+                rig.open[i], rig.closed[i] = op["o"], op["c"]
+                if hdr[i] is None:
+                    raise T.MachineryError("history must start with the reset of a valve")
+                ev[i].append(dict(op="switches", o=op["o"], c=op["c"]))
             elif k == "advance":
                 rig.now += op["dt"]
-                ev.append(dict(op))
+                for j in range(n):
+                    if hdr[j] is not None:       # time before a valve's reset is not its history
+                        ev[j].append(dict(op="advance", dt=op["dt"]))
             elif k == "update":
                 if dead:
                     break
+                if any(h is None for h in hdr):
+                    raise T.MachineryError("update before every valve was reset")
                 try:
                     rig.sg.update_devices(rig.bus())
                 except Exception as e:  # a case result: the spec has no step for it
-                    ev.append(dict(op="update", res="raise:" + type(e).__name__, coil=False,
-                                   target=False, error=False))
+                    for j in range(n):
+                        ev[j].append(dict(op="update", res="raise:" + type(e).__name__, coil=False,
+                                          target=False, error=False))
                     dead = True
                     continue
-                t, e = v.target, v.error
-                ev.append(dict(op="update", res="ok" if t in (0, 1) and e in (0, 1) else "value",
-                               coil=rig.coil(), target=bool(t), error=bool(e),
-                               coil_read=bool(v.coil)))
-        tr = dict(mt=mt, safe=safe, ev=ev)
-        tr.update(hdr)
-        return tr
+                for j, v in enumerate(rig.v):
+                    t, e = v.target, v.error
+                    ev[j].append(dict(op="update",
+                                      res="ok" if t in (0, 1) and e in (0, 1) else "value",
+                                      coil=rig.coil(j), target=bool(t), error=bool(e),
+                                      coil_read=bool(v.coil)))
+        out = []
+        for j, cfg in enumerate(valves):
+            tr = dict(mt=cfg["mt"], safe=cfg["safe"], ev=ev[j])
+            tr.update(hdr[j])
+            out.append(tr)
+        return out
     finally:
         rig.close()
+
+
+def drive(script, mt, safe, layout="A", coil0=False, configure="instance"):
+    """a single valve"""
+    return drive_group(script, [dict(mt=mt, safe=safe, coil0=coil0, configure=configure)], layout)[0]
+
+
+def enumerate_group_scripts(ctx, wd, n, ncycles, dts, mode, staggers):
+    name = "gscripts_%d_%d_%s_%s_%s.cfg" % (n, ncycles, "".join(map(str, dts)), mode,
+                                           "".join(map(str, staggers)))
+    T.write_cfg(wd, name, f"""SPECIFICATION SSpec
+CONSTANTS N = {n}
+          NCycles = {ncycles}
+          Dts = {{{", ".join(map(str, dts))}}}
+          Mode = "{mode}"
+          Staggers = {{{", ".join(map(str, staggers))}}}
+INVARIANT Emit
+CHECK_DEADLOCK FALSE
+""")
+    res = T.require_clean(T.run(wd, "ValveGroupScripts", name, workers=1, timeout=600),
+                          "ValveGroupScripts")
+    ctx.tlc_stats(res)
+    scripts = [r[0] for r in T.printed_records(res, "SCRIPT")]
+    letters = {"full": 8, "three-switch": 6, "three": 3}[mode]
+    want = len(staggers) * (letters ** n * len(dts)) ** ncycles
+    if len(scripts) != want:
+        raise T.MachineryError(f"ValveGroupScripts: {len(scripts)} scripts, expected {want}")
+    return scripts
 
 
 def enumerate_scripts(ctx, wd, ncycles, dts):
@@ -174,12 +233,16 @@ def judge(ctx, wd, runs, chunk=6000):
     for (meta, tr), (matched, length, inv) in zip(runs, results):
         ctx.traces += 1
         unconfirmed, raised = classify(tr)
-        ctx.evaluated((meta["mt"], meta["safe"], meta["layout"], meta["coil0"],
-                       json.dumps(meta["script"])), nontrivial=unconfirmed)
+        ctx.evaluated((meta["mt"], meta["safe"], meta["layout"], meta["coil0"], meta.get("valve", 0),
+                       json.dumps(meta.get("group")), json.dumps(meta["script"])),
+                      nontrivial=unconfirmed)
+        if "group" in meta:
+            ctx.extra["valve_traces_from_groups"] = ctx.extra.get("valve_traces_from_groups", 0) + 1
         if raised:
             ctx.extra["runs_with_error_raised"] = ctx.extra.get("runs_with_error_raised", 0) + 1
-        if raised and unconfirmed and len(ctx.samples) < 3 and meta["mt"] > 0:
-            ctx.sample(tr)
+        if raised and unconfirmed and meta["mt"] > 0 and \
+                len(ctx.samples) < (2 if "group" not in meta else 4):
+            ctx.sample(dict(tr, valve=meta.get("valve", 0), valves_in_group=len(meta.get("group", [0]))))
         if matched != length or isinstance(inv, str):
             failed.append((meta, tr, matched, length, inv))
     if not failed:
@@ -206,7 +269,8 @@ def judge(ctx, wd, runs, chunk=6000):
                     coil_before=before[-1]["coil"] if before else tr["coil0"],
                     accepted_with_safe_state=verdict.get(k, False))
         ctx.case_failed(case, (f"run rejected by Valve at step {matched}: {bad} "
-                               f"(mt={meta['mt']}, safeState={meta['safe']}; with coil = target = "
+                               f"(valve {meta.get('valve', 0)} of {len(meta.get('group', [0]))}, "
+                               f"mt={meta['mt']}, safeState={meta['safe']}; with coil = target = "
                                f"safeState the step would {'' if verdict.get(k) else 'not '}be accepted)")
                         if bad else f"run rejected by Valve: {inv or 'state after reset'}")
 
@@ -238,65 +302,111 @@ CHECK_DEADLOCK FALSE
                  ((True,), {0: (2, (0, 1)), 1: (2, (0, 1)), 3: (2, (1, 2))})]
     else:
         # the position check only applies to the default safe state: that is where depth pays
-        plans = [((False,), {0: (4, (0, 1)), 1: (4, (0, 1)), 3: (4, (1, 2))}),
+        plans = [((False,), {1: (4, (0, 1)), 3: (4, (1, 2))}),
                  (both, {0: (3, (0, 1, 2)), 1: (3, (0, 1, 2)), 3: (3, (0, 2, 3))})]
     ctx.extra["plans"] = [dict(safe_states=list(sf), per_moving_time={
         str(k): dict(cycles=v[0], dts=list(v[1])) for k, v in p.items()}) for sf, p in plans]
+
+    # group histories: several Valve objects in one sync group, every valve judged on its own.
+    # (n valves, cycles, dts, letters, staggers, [(mt, safe) per valve])
+    if ctx.quick:
+        gplans = [(2, 2, (0, 1), "three-switch", (0,), [(1, False), (1, False)]),
+                  (2, 2, (1, 2), "three-switch", (0,), [(3, False), (3, False)]),
+                  (3, 2, (1, 2), "three", (0,), [(3, False), (1, False), (3, True)])]
+    else:
+        gplans = [(2, 2, (1, 2), "full", (0,), [(3, False), (3, False)]),
+                  (2, 2, (0, 1), "three-switch", (0,), [(1, False), (1, False)]),
+                  (2, 2, (1, 2), "three-switch", (0, 1), [(1, False), (3, False)]),
+                  (2, 2, (1, 2), "three-switch", (0, 1), [(3, False), (1, False)]),
+                  (3, 2, (0, 1, 2), "three", (0,), [(3, False), (1, False), (3, True)]),
+                  (2, 3, (1, 2), "three", (0,), [(3, False), (3, False)])]
+    ctx.extra["group_plans"] = [dict(valves=n, cycles=c, dts=list(d), letters=m, staggers=list(st),
+                                     config=[dict(mt=a, safe=b) for a, b in cfg])
+                                for n, c, d, m, st, cfg in gplans]
+
+    def group_runs(script, group, layout):
+        traces = drive_group(script, group, layout)
+        return [(dict(mt=g["mt"], safe=g["safe"], layout=layout, coil0=g.get("coil0", False),
+                      configure=g.get("configure", "instance"), valve=k, group=group, script=script),
+                 tr) for k, (g, tr) in enumerate(zip(group, traces))]
 
     def cases():
         cache = {}
         for safes, plan in plans:
             for mt in MOVING_TIMES:
+                if mt not in plan:
+                    continue
                 key = plan[mt]
                 if key not in cache:   # kept as JSON text: 65536 scripts as dicts are too big
                     cache[key] = [json.dumps(x) for x in enumerate_scripts(ctx, wd, *key)]
                 for js in cache[key]:
                     for safe in safes:
                         s = json.loads(js)
-                        yield dict(mt=mt, safe=safe, layout="A", coil0=False, script=s), ()
-        # 3. extra random histories: longer, other frame layout, coil initially energised,
-        #    class-level configuration (the enumeration above is seed-independent)
+                        yield [(dict(mt=mt, safe=safe, layout="A", coil0=False, script=s),
+                                drive(s, mt, safe))]
+        for n, cyc, dts, mode, staggers, cfg in gplans:
+            group = [dict(mt=a, safe=b, coil0=False, configure="instance") for a, b in cfg]
+            for s in enumerate_group_scripts(ctx, wd, n, cyc, dts, mode, staggers):
+                ctx.extra["group_histories"] = ctx.extra.get("group_histories", 0) + 1
+                yield group_runs(s, group, "A")
+        # 3. extra random histories: longer, 1..3 valves with different configurations, other frame
+        #    layout, coils initially energised, class-level configuration, staggered resets, steps
+        #    that leave a valve alone (the enumeration above is seed-independent)
         rng = ctx.rng
         for i in range(300 if ctx.quick else 3000):
-            mt = rng.choice(MOVING_TIMES + (2, 5))
-            s = [dict(op="reset")]
+            n = rng.choice((1, 1, 2, 2, 3))
+            group = [dict(mt=rng.choice(MOVING_TIMES + (2, 5)), safe=rng.random() < 0.3,
+                          coil0=rng.random() < 0.5, configure=rng.choice(["instance", "subclass"]))
+                     for _ in range(n)]
+            s = []
+            for k in rng.sample(range(n), n):
+                s.append(dict(op="reset", i=k))
+                if rng.random() < 0.3:
+                    s.append(dict(op="advance", dt=rng.randint(1, 3)))
             for _ in range(rng.randint(4, 12)):
-                s.append(dict(op="target", v=rng.random() < 0.5))
-                s.append(dict(op="switches", o=rng.random() < 0.5, c=rng.random() < 0.5))
+                for k in range(n):
+                    if rng.random() < 0.8:
+                        s.append(dict(op="target", i=k, v=rng.random() < 0.5))
+                    if rng.random() < 0.8:
+                        s.append(dict(op="switches", i=k, o=rng.random() < 0.5, c=rng.random() < 0.5))
                 dt = rng.randint(0, 4)
                 if dt:
                     s.append(dict(op="advance", dt=dt))
                 s.append(dict(op="update"))
-            meta = dict(mt=mt, safe=rng.random() < 0.3, layout=rng.choice("AB"),
-                        coil0=rng.random() < 0.5, script=s,
-                        configure=rng.choice(["instance", "subclass"]))
-            yield meta, (meta["layout"], meta["coil0"], meta["configure"])
+            yield group_runs(s, group, rng.choice("AB"))
 
     batch = []
-    for meta, args in cases():
-        batch.append((meta, drive(meta["script"], meta["mt"], meta["safe"], *args)))
+    for pairs in cases():
+        batch.extend(pairs)
         if len(batch) >= 8000:
-            judge(ctx, wd, batch, chunk=8000)
+            judge(ctx, wd, batch, chunk=9000)
             batch = []
     if batch:
-        judge(ctx, wd, batch, chunk=8000)
+        judge(ctx, wd, batch, chunk=9000)
     ctx.exhaustive = True
     ctx.rule = ("all histories (normal form: SetTarget, Switches, optional Advance, Update per cycle; "
                 + "; ".join(f"safeState in {set(sf)}: " +
                             ", ".join(f"{p[m][0]} cycles with dt in {set(p[m][1])} for moving time {m}"
-                                      for m in MOVING_TIMES) for sf, p in plans)
-                + "), TLC-enumerated, plus seeded random longer histories; "
+                                      for m in MOVING_TIMES if m in p) for sf, p in plans)
+                + "), TLC-enumerated; group histories with several Valve objects in one sync group, each "
+                  "valve judged by its own instance of the spec: "
+                + "; ".join(f"{n} valves (mt, safe) = {cfg}, {c} cycles, dt in {set(d)}, letters '{m}', "
+                            f"reset stagger in {set(st)}" for n, c, d, m, st, cfg in gplans)
+                + ", TLC-enumerated; plus seeded random longer histories of 1..3 valves; "
                   "non-trivial = some update found the switches not confirming the commanded position")
 
 
 def replay_case(case):
+    if "group" in case:
+        return drive_group(case["script"], case["group"], case.get("layout", "A"))[case.get("valve", 0)]
     return drive(case["script"], case["mt"], case["safe"], case.get("layout", "A"),
                  case.get("coil0", False), case.get("configure", "instance"))
 
 
 def replay(ctx, case):
     """./check C27 --replay <file>: run the case again and let TLC judge it"""
-    meta = {k: case[k] for k in ("mt", "safe", "layout", "coil0", "script", "configure") if k in case}
+    meta = {k: case[k] for k in ("mt", "safe", "layout", "coil0", "script", "configure", "group",
+                                 "valve") if k in case}
     meta.setdefault("layout", "A")
     meta.setdefault("coil0", False)
     judge(ctx, ctx.workdir(), [(meta, replay_case(case))])
